@@ -234,7 +234,10 @@ func c13Check(env *core.Env, cc core.Case) core.Verdict {
 	// 1. --check before: must not write, must fail iff a rewrite would change the file
 	before := sut.Snap(root)
 	rc := cli(env, root, nil, args(true)...)
-	if rc.Class() == sut.ClassFault || rc.Class() == sut.ClassTimeout {
+	if rc.Class() == sut.ClassTimeout {
+		return core.Incon("watchdog hit, not judged: %s", describe(rc))
+	}
+	if rc.Class() == sut.ClassFault {
 		return core.Viol("check-crash", "renumber-tests --check crashed: %s", describe(rc))
 	}
 	if d := sut.Diff(before, sut.Snap(root)); len(d) > 0 {
